@@ -29,7 +29,7 @@ def tu_text(tier):
     L.append('extern "C" void fc_T1(const double* i, double* o){ vspline::fixedcubic<double>(i,o);}')
     L.append('extern "C" void fc_T2(const double* i, double* o){ vspline::fixedcubic<Eigen::Vector2d>(i,o);}')
     for loc in (0, 1):
-        L.append('extern "C" void cat_%d(const double* i, double* o){ vspline::concat<3,double,2,1,%s>(i,o);}' % (loc, "true" if loc else "false"))
+        L.append('extern "C" void cat_%d(const double* i, double* o){ vspline::concat<3,double,2,2,%s>(i,o);}' % (loc, "true" if loc else "false"))
     return "\n".join(L) + "\n"
 
 
@@ -369,7 +369,7 @@ def job_concat(loc, tier):
     T.reset_terms()
     res = check.Result()
     h = check.Harness("spline12", tu_text(tier))
-    a, b = State(1, 3, 2, "a"), State(1, 3, 1, "b")
+    a, b = State(1, 3, 2, "a"), State(1, 3, 2, "b")
     t = T.Sym("t")
     ins = a.inputs() + b.inputs() + [t]
     asm = a.asm() + b.asm()
@@ -384,13 +384,14 @@ def job_concat(loc, tier):
         env.update(e2)
         t1 = e1[a.e[-1].args[0]]
         t2 = e2[b.e[-1].args[0]]
-        env["t"] = r.choice([r.uniform(0, t1), r.uniform(t1, t1 + t2), t1, t1 + t2, 0.0])
+        env["t"] = r.choice([r.uniform(0, t1), r.uniform(t1, t1 + t2), t1, t1 + t2, 0.0, t1 + t2 + 0.7])
         return env
     res.functions.add(fn)
-    res.validated += h.validate(fn, lambda k: [float(T.evaluate(x, sym_sampler(k))) for x in ins], 12, 6)
+    res.validated += h.validate(fn, lambda k: [float(T.evaluate(x, sym_sampler(k))) for x in ins], 15, 6)
     t1 = a.e[-1]
     first = [(Cond("cmp", t, T.Const(0), "oge"), True), (Cond("cmp", t, t1, "olt"), True)]
     second = [(Cond("cmp", t, t1, "ogt"), True), (Cond("cmp", t, T.Add(t1, b.e[-1]), "ole"), True)]
+    after = [(Cond("cmp", t, T.Add(t1, b.e[-1]), "ogt"), True)]
 
     def obligations(ins_, o):
         obl = [("first/value", o[0], o[3], first), ("first/vel", o[1], o[4], first), ("first/acc", o[2], o[5], first)]
@@ -398,9 +399,12 @@ def job_concat(loc, tier):
             obl.append(("second/value", o[0], T.Add(o[9], T.Sub(o[6], b.g0[0])) if False else T.Add(o[9], o[6]), second))
         else:
             obl.append(("second/value", o[0], o[6], second))
-        obl += [("second/vel", o[1], o[7], second), ("second/acc", o[2], o[8], second), ("t_max", o[10], T.Add(t1, b.e[-1])), ("size", o[11], T.Const(3))]
+        obl += [("second/vel", o[1], o[7], second), ("second/acc", o[2], o[8], second), ("t_max", o[10], T.Add(t1, b.e[-1])), ("size", o[11], T.Const(4))]
+        # end point and out-of-range value of the concatenation: x1(t1) * x2.end() (local) resp. x2.end() (global)
+        endv = T.Add(o[9], o[13]) if loc else o[13]
+        obl += [("end()", o[12], endv), ("after/value", o[0], endv, after), ("after/vel", o[1], T.Const(0), after)]
         return obl
-    wrapper_check(res, h, fn, ins, 12, key, obligations, asm, sym_sampler, max_paths=300 if tier == "quick" else 3000)
+    wrapper_check(res, h, fn, ins, 15, key, obligations, asm, sym_sampler, max_paths=300 if tier == "quick" else 3000)
     res.axioms.add("concat: y(t)=x1(t) before t1; afterwards x1(t1)*x2(t-t1) (local) resp. x2(t-t1) (global), compared with the real operator() of the operands")
     return res
 
